@@ -134,6 +134,7 @@ func Open(path string, freeList *freelist.FreeList, fileCache *filecache.FileCac
 	}
 	length, err := file.Seek(0, io.SeekEnd)
 	if err != nil {
+		file.Close()
 		return nil, err
 	}
 
